@@ -185,6 +185,9 @@ def check(ctx):
         check_normalised_access(ctx, m, c)
     check_one_box(ctx, m)
     check_total_order(ctx, m)
+    ctx.rule("R03.5", "types normalise their objects into the class whose attributes their repr / hash / adjoints read")
+    n5 = check_type_normalisation(ctx, m)
+    ctx.need(n5 >= 2, "fewer than 2 type constructors normalise their objects (%d)" % n5)
     ctx.floor("R03.1", 14)
     ctx.floor("R03.2", 20)
     ctx.floor("R03.3", 20)
@@ -287,6 +290,48 @@ def check_normalised_access(ctx, m, c):
                         ctx.ob("R03.2", "%s.%s:raw-%s" % (c.q, meth, n.attr), False, found="reads %s.%s" % (n.value.id, n.attr),
                                required="read through the normalising property `%s` (the raw field may be a list or a tuple)" % n.attr[1:], mod=c.mod, node=n,
                                sig="raw-field-" + n.attr)
+
+
+def check_type_normalisation(ctx, m):
+    """R03.5: a type normalises its objects in __init__ (`x if isinstance(x, K1) else ... K2(x)`); repr / hash / adjoints then read attributes of K2 on every
+    object: objects kept as they are (K1) must already be K2"""
+    n = 0
+    for c in sorted(m.classes.values(), key=lambda c: c.q):
+        if not any(k.q == "discopy.monoidal.Ty" for k in m.mro(c)) or "__init__" not in c.methods:
+            continue
+        fn = c.methods["__init__"][0]
+        for x in ast.walk(fn):
+            if not isinstance(x, (ast.ListComp, ast.GeneratorExp)):
+                continue
+            e = x.elt
+            keeps, makes = [], []
+            while isinstance(e, ast.IfExp):
+                t = e.test
+                neg = isinstance(t, ast.UnaryOp) and isinstance(t.op, ast.Not)
+                t = t.operand if neg else t
+                if isinstance(t, ast.Call) and ast.unparse(t.func) == "isinstance" and len(t.args) == 2:
+                    kept = e.orelse if neg else e.body
+                    if isinstance(kept, ast.Name) and ast.unparse(t.args[0]) == kept.id:
+                        keeps.append(t.args[1])
+                    branch = e.body if neg else None
+                    if branch is not None and isinstance(branch, ast.Call):
+                        makes.append(branch.func)
+                    if not neg and isinstance(e.body, ast.Call):
+                        makes.append(e.body.func)
+                e = e.body if neg and isinstance(e.body, ast.IfExp) else e.orelse
+            if isinstance(e, ast.Call):
+                makes.append(e.func)
+            if not keeps or not makes:
+                continue
+            K2 = m.resolve_class(c.mod, ast.unparse(makes[-1]))
+            for k in keeps:
+                K1 = m.resolve_class(c.mod, ast.unparse(k))
+                if K1 is None or K2 is None:
+                    continue
+                n += 1
+                ctx.ob("R03.5", "%s.__init__:objects" % c.q, m.is_subclass(K1, K2), found="objects that are %s are kept as they are, the others become %s" % (K1.q, K2.q),
+                       required="only objects that already are %s (whose attributes __repr__ / __hash__ / adjoints of this type read) are kept unconverted" % K2.q, mod=c.mod, node=x, sig="type-objects")
+    return n
 
 
 def check_one_box(ctx, m):
